@@ -9,10 +9,13 @@
 #include <stdlib.h>
 #include <string.h>
 #include <sys/types.h>
+#include <pthread.h>
+#include <sched.h>
 
 static __thread SimEnv* cur_env;
 void (*sim_yield_hook)(SimEnv*) = 0;
 void (*sim_budget_hook)(SimEnv*) = 0;
+void (*sim_wait_hook)(SimEnv*) = 0;
 
 SimEnv* sim_env_get(void) { return cur_env; }
 void sim_env_set(SimEnv* e) { cur_env = e; }
@@ -271,3 +274,97 @@ YIELD_WRAP(int, Keccak_HashSqueezetimes4, (void* a, uint8_t** b, size_t c), (a, 
 PROBE_WRAP(mzd_addmul_v_s256_129, k_s256)
 PROBE_WRAP(mzd_addmul_v_s128_129, k_s128)
 PROBE_WRAP(mzd_addmul_v_uint64_129, k_u64)
+
+/* ------------------------------------------------------------------ blocking synchronisation inside the library
+ * The library has none today, but a thread-safe one-time initialisation or a lock would be a legitimate way to keep C15.
+ * Under the serialising scheduler a task that blocks on something a PARKED task holds would dead-lock the simulation, so
+ * the blocking primitives are made cooperative: instead of sleeping in the kernel the task hands the baton on. */
+static void cooperative_wait(void) {
+  SimEnv* e = cur_env;
+  if (e && e->task >= 0 && sim_wait_hook)
+    sim_wait_hook(e);
+  else
+    sched_yield();
+}
+int __real_pthread_mutex_lock(pthread_mutex_t*);
+int __real_pthread_mutex_trylock(pthread_mutex_t*) __attribute__((weak));
+int __wrap_pthread_mutex_lock(pthread_mutex_t* m) {
+  SimEnv* e = cur_env;
+  if (!e || e->task < 0 || !sim_wait_hook)
+    return __real_pthread_mutex_lock(m);
+  for (;;) {
+    int rc = pthread_mutex_trylock(m);
+    if (rc != EBUSY)
+      return rc;
+    cooperative_wait();
+  }
+}
+#define ONCE_SLOTS 64
+static struct {
+  void* key;
+  volatile int state; /* 0 free, 1 running, 2 done */
+} once_tab[ONCE_SLOTS];
+static pthread_mutex_t once_mu = PTHREAD_MUTEX_INITIALIZER;
+static int once_enter(void* key) { /* 0: caller runs the init; 1: already done */
+  for (;;) {
+    int run = 0, done = 0, slot = -1;
+    __real_pthread_mutex_lock(&once_mu);
+    for (int i = 0; i < ONCE_SLOTS; i++)
+      if (once_tab[i].key == key) {
+        slot = i;
+        break;
+      }
+    if (slot < 0)
+      for (int i = 0; i < ONCE_SLOTS; i++)
+        if (!once_tab[i].key) {
+          slot = i;
+          once_tab[i].key = key;
+          once_tab[i].state = 0;
+          break;
+        }
+    if (slot >= 0) {
+      if (once_tab[slot].state == 0) {
+        once_tab[slot].state = 1;
+        run = 1;
+      } else if (once_tab[slot].state == 2)
+        done = 1;
+    } else
+      run = 1; /* table full: degrade to running it (idempotent initialisers only) */
+    pthread_mutex_unlock(&once_mu);
+    if (run)
+      return 0;
+    if (done)
+      return 1;
+    cooperative_wait(); /* another task is inside the initialiser */
+  }
+}
+static void once_leave(void* key) {
+  __real_pthread_mutex_lock(&once_mu);
+  for (int i = 0; i < ONCE_SLOTS; i++)
+    if (once_tab[i].key == key)
+      once_tab[i].state = 2;
+  pthread_mutex_unlock(&once_mu);
+}
+int __real_pthread_once(pthread_once_t*, void (*)(void));
+int __wrap_pthread_once(pthread_once_t* o, void (*fn)(void)) {
+  SimEnv* e = cur_env;
+  if (!e) /* harness / runtime code: the real thing */
+    return __real_pthread_once(o, fn);
+  if (!once_enter(o)) {
+    fn();
+    once_leave(o);
+  }
+  return 0;
+}
+void __real_call_once(void*, void (*)(void)) __attribute__((weak));
+void __wrap_call_once(void* flag, void (*fn)(void)) {
+  SimEnv* e = cur_env;
+  if (!e && __real_call_once) {
+    __real_call_once(flag, fn);
+    return;
+  }
+  if (!once_enter(flag)) {
+    fn();
+    once_leave(flag);
+  }
+}
